@@ -606,12 +606,21 @@ class C17(CheckBase):
 
     # ----------------------------------------------------------------- execute
     def execute(self, trace):
+        self._undo_global = None
+        try:
+            return self._execute(trace)
+        finally:
+            if self._undo_global is not None:
+                self._undo_global()
+
+    def _execute(self, trace):
         nr, tf = self.nr, self.tf
         spec = trace['spec']
         log = EventLog()
         fs = SimFS(cwd='/sim')
         nr.open = fs.open
         fs.install_os_seam(nr)
+        self._undo_global = fs.install_global_seam()
         viol = []
         stats = {}
         sigset = set()
